@@ -293,4 +293,10 @@ def httpStep (c : Conf) (r : Registry) (method path : String) (a : HttpArgs) (no
       | some _ => (r, 200)
   | .found _ => (r, 200)
 
+/-- body of `GET /ping` (`pingHandler` returns "OK", `http_api.PlainText` writes it as is) -/
+def pingBody : List UInt8 := [79, 75]
+
+/-- members of the `GET /info` document (`doInfo`: `struct{ Version string \`json:"version"\` }`) -/
+def infoKeys : List String := ["version"]
+
 end Nsq.Model.RegistryProto
